@@ -10,7 +10,7 @@ from ..core import HarnessError, Violation
 
 ID = "C08"
 LEVEL = "exploration"
-RULE = ("Hypothesis draws any declarable SchemaSpec (depth<=3, satisfiable or not, float nodes with "
+RULE = ("exhaustive: 37 representative constrained nodes (every type; value, precision, bounds, lengths, alphabet, regex, list forms, dict forms, any, alias) x the whole zoo (70 objects) x 3 embeddings (alone, typed-list element, dict value); then Hypothesis draws any declarable SchemaSpec (depth<=3, satisfiable or not, float nodes with "
         "value+precision included) and a value from the hostile zoo (nan, +-inf, -0.0, ints beyond "
         "2**64 and 10**400, Decimal, Fraction, complex, tuples, sets, bytearray, memoryview, range, "
         "plain subclasses of int/float/str/bytes/list/dict, OrderedDict, defaultdict, UUID v1/3/5/nil, "
@@ -47,6 +47,51 @@ def _case(draw):
 
 def strategy(tier):
     return _case()
+
+
+# Exhaustive cross product: representative constrained node of every type  x  the whole zoo  x
+# three embeddings (alone, list element, dict value).  This is where "arithmetic / attribute access
+# after the type guard" lives, and random pairing reaches a given (node, zoo item) pair too rarely.
+import datetime as _dt
+import uuid as _uuid
+
+HOT_NODES = [
+    {"t": "none"}, {"t": "bool"}, {"t": "bool", "value": True},
+    {"t": "int"}, {"t": "int", "value": 3}, {"t": "int", "min": 0, "max": 10, "order": ["min", "max"]},
+    {"t": "float"}, {"t": "float", "value": 1.5}, {"t": "float", "value": 1.5, "precision": 2, "order": ["precision"]},
+    {"t": "float", "value": 1e300, "precision": 15, "order": ["precision"]},
+    {"t": "float", "min": 0.0, "max": 10.0, "order": ["min", "max"]},
+    {"t": "float", "min": 0.0, "max": 10.0, "precision": 1, "order": ["min", "max", "precision"]},
+    {"t": "str"}, {"t": "str", "value": "ab"}, {"t": "str", "len": ["eq", 2], "order": ["len"]},
+    {"t": "str", "len": ["range", 1, 3], "alphabet": "ab", "substr": "a", "order": ["len", "alphabet", "substr"]},
+    {"t": "str", "pattern": "^a+$"},
+    {"t": "bytes"}, {"t": "bytes", "value": b"ab"},
+    {"t": "uuid4"}, {"t": "uuid4", "value": _uuid.UUID("12345678-1234-4234-8234-123456789abc")},
+    {"t": "datetime"}, {"t": "datetime", "value": _dt.datetime(2020, 1, 2, 3, 4, 5)},
+    {"t": "date"}, {"t": "date", "value": _dt.date(2020, 1, 2)},
+    {"t": "list", "form": "untyped"}, {"t": "list", "form": "untyped", "len": ["range", 1, 2]},
+    {"t": "list", "form": "typed", "elem": {"t": "int"}},
+    {"t": "list", "form": "exact", "elems": [{"t": "int"}, {"t": "str"}]},
+    {"t": "list", "form": "contains", "elems": [{"t": "int"}]},
+    {"t": "list", "form": "tail", "elems": [{"t": "int"}]},
+    {"t": "dict"}, {"t": "dict", "entries": [{"key": "a", "opt": False, "spec": {"t": "int"}},
+                                             {"key": "b", "opt": True, "spec": {"t": "str"}}], "relaxed": False},
+    {"t": "dict", "entries": [{"key": "a", "opt": False, "spec": {"t": "int"}}], "relaxed": True},
+    {"t": "any"}, {"t": "any", "alts": [{"t": "int"}, {"t": "str", "len": ["eq", 1], "order": ["len"]}]},
+    {"t": "alias", "name": "A", "spec": {"t": "float", "value": 2.5, "precision": 1, "order": ["precision"]}},
+]
+EXHAUSTIVE_COMPLETE = True
+
+
+def exhaustive(tier):
+    from ..codec import Zoo
+    for node in HOT_NODES:
+        for name in sorted(values.ZOO):
+            z = Zoo(name)
+            yield {"spec": node, "value": z, "how": "typed", "depth": 0}
+            yield {"spec": {"t": "list", "form": "typed", "elem": node}, "value": [z], "how": "typed", "depth": 1}
+            yield {"spec": {"t": "dict", "entries": [{"key": "k", "opt": False, "spec": node}], "relaxed": False},
+                   "value": {"k": z}, "how": "typed", "depth": 1}
 
 
 def _zoo_depths(v, d=0):
